@@ -15,4 +15,5 @@ rc=$?
 grep -E "^VIOLATION|^KNOWN|^check|broken obligation|what:" "/tmp/seedtest-$id-$tag.log" | head -12
 first=$(grep -m1 -oE "replay=[^ ]+" "/tmp/seedtest-$id-$tag.log" | cut -d= -f2)
 [ -n "$first" ] && [ -f "$first" ] && { echo "--- first replay (head):"; head -25 "$first"; }
+if grep -q "\[timeout\]" "/tmp/seedtest-$id-$tag.log"; then echo "SEEDTEST $id $tag: INCONCLUSIVE (a step timed out) log=/tmp/seedtest-$id-$tag.log"; exit 3; fi
 if grep -q "^VIOLATION property=$id" "/tmp/seedtest-$id-$tag.log"; then echo "SEEDTEST $id $tag: CAUGHT"; exit 0; else echo "SEEDTEST $id $tag: MISSED (rc=$rc) log=/tmp/seedtest-$id-$tag.log"; exit 1; fi
